@@ -10,8 +10,8 @@ EPV/Model/Builder.lean; a node's identity is its position):
 * `lazyNode/lazyKids`: the recursive description the machine is proved equal to.
 * `get_node_tree` applied to an already built node (tree_builders.py:49-61) with
   `DocumentNode.getroot` (l. 1642-1646) and `EtreeElementNode.get_document_node` (l. 1332-1372, `replace=False`).
-* `XPathContext.get_root` (xpath_context.py:244-254, no `documents`) and the node comparison walk when
-  the context root is not the tree root.
+* `XPathContext.get_root` (no `documents`) and the node comparison for any context root (several trees:
+  EPV/Model/BuilderForest.lean).
 Core Lean only.
 -/
 import EPV.Model.Builder
@@ -192,36 +192,21 @@ where iterAtKids : Option Nat → List PNode → Nat → Option (List Rec)
 
 /-! ### context root ≠ tree root -/
 
-/-- `XPathContext.get_root(node)` without `documents`: the context root if the node is met by
-`context.root.iter_lazy()`, else `None`.  `ctxRoot = none`: the context has no root (item-only). -/
+/-- `XPathContext.get_root(node)` without `documents`, for a node of the tree (after fix-c02-5): the
+context root if the node is met by `context.root.iter_lazy()`; otherwise — the node lies in the
+context tree outside the context root's subtree, or the context has no root (`ctxRoot = none`) —
+the root of the node's own tree (`node.root_node`). -/
 def ctxGetRoot (tree : PNode) (ctxRoot : Option Nat) (L : LazyState) (node : Nat) : Option Nat :=
   match ctxRoot with
-  | none => none
+  | none => some tree.pos
   | some cr => match nodeAt tree cr with
-    | some sub => if ((lazyNode L none sub).map (·.pos)).contains node then some cr else none
+    | some sub => if ((lazyNode L none sub).map (·.pos)).contains node then some cr else some tree.pos
     | none => none
 
-/-- `$a << $b` (`follows = true`: `>>`) when `context.root` is the node at `cr`: the walk is over
-`context.root.iter_document()` only.  Identities are positions. `none` = FOCA0002. -/
-def walkPos (a b : Nat) : List Rec → Option Bool
-  | [] => none
-  | r :: rest => if r.pos == a then some true else if r.pos == b then some false else walkPos a b rest
-
-/-- `for root in documents: for item in root.iter_document(): …` — the first root in which one of the
-operands is met decides -/
-def walkRoots (tree : PNode) (a b : Nat) : List Nat → Option Bool
-  | [] => none
-  | r :: rs =>
-    match (nodeAt tree r).bind fun sub => walkPos a b (iterNode none sub) with
-    | some x => some x
-    | none => walkRoots tree a b rs
-
-/-- `documents = [context.root]` + the variables that are document nodes (here: the operands
-themselves when they are documents); `ctxRoot = none`: `context.root is None` is skipped -/
-def ctxPrecedes (tree : PNode) (ctxRoot : Option Nat) (follows : Bool) (a b : Nat) : Option Bool :=
-  if a == b then some false else
-  (walkRoots tree a b (ctxRoot.toList ++ [a, b].filter fun p => (nodeAt tree p).any PNode.isDoc)).map
-    fun r => if follows then !r else r
+/-- `$a << $b` (`follows = true`: `>>`) for two nodes of ONE tree, whatever the context root is (after
+fix-c02-5): by position.  Identities are positions. -/
+def ctxPrecedes (_tree : PNode) (_ctxRoot : Option Nat) (follows : Bool) (a b : Nat) : Option Bool :=
+  if a == b then some false else some (if follows then decide (b < a) else decide (a < b))
 
 /-! ### operands of an operator expression
 
